@@ -25,7 +25,7 @@ class PathResult:
         self.value = value
 
 
-def explore(world, setup, run, contracts=None, max_paths=MAX_PATHS, timeout_ms=4000):
+def explore(world, setup, run, contracts=None, max_paths=MAX_PATHS, timeout_ms=4000, configure=None):
     """setup(it) -> args (adds the precondition with it.assume); run(it, args) -> value"""
     work = [[]]
     results = []
@@ -35,6 +35,8 @@ def explore(world, setup, run, contracts=None, max_paths=MAX_PATHS, timeout_ms=4
         it = Interp(world, dec, timeout_ms=timeout_ms)
         if contracts:
             it.contracts = contracts
+        if configure is not None:
+            configure(it)
         args = None
         try:
             args = setup(it)
@@ -45,8 +47,13 @@ def explore(world, setup, run, contracts=None, max_paths=MAX_PATHS, timeout_ms=4
         except PyRaise as e:
             res = PathResult(it, args, "raise", e)
         except Abort:
-            stats["aborted"] += 1
             work.extend(it.pending)
+            if getattr(it, "cut", False):
+                # a path cut at a loop invariant: it carries obligations but no result
+                stats["paths"] += 1
+                results.append(PathResult(it, args, "cut", None))
+            else:
+                stats["aborted"] += 1
             continue
         except Unsupported as e:
             res = PathResult(it, args, "unsupported", e)
@@ -158,11 +165,12 @@ def run_cvc5(smt2, timeout_s=20):
 
 
 def verify_function(world, func_name, setup, run, ensures, props, contracts=None, allow_raises=(),
-                    describe_args=None, check_frame=True, cover=None, timeout_ms=10000, prop_map=None, only_prop=None):
+                    describe_args=None, check_frame=True, cover=None, timeout_ms=10000, prop_map=None, only_prop=None,
+                    configure=None):
     """ensures(it, args, result) -> list of (clause name, [property ids], Bool term)
     returns (list of Obligation, info)"""
     t0 = time.time()
-    results, stats = explore(world, setup, run, contracts)
+    results, stats = explore(world, setup, run, contracts, configure=configure)
     obs = {}
 
     def ob(clause, pids):
@@ -175,6 +183,21 @@ def verify_function(world, func_name, setup, run, ensures, props, contracts=None
     covered = {} if cover is None else {n: False for n, _ in cover}
     for r in results:
         it = r.it
+        for lname, lprops, lres, lmodel in getattr(it, "ob_log", []):
+            o = ob(lname, lprops)
+            o.paths += 1
+            o.queries += 1
+            o.backend["z3"] += 1
+            if lres == "sat" and o.status != "failed":
+                o.status = "failed"
+                o.detail = "loop obligation false on a feasible path"
+                o.cex = {"args": {"kind": "loop-obligation"}}
+                o.no_input_expected = True
+            elif lres == "unknown" and o.status == "discharged":
+                o.status = "undecided"
+                o.detail = "solver returned unknown"
+        if r.kind == "cut":
+            continue
         if r.kind == "unsupported":
             for o in obs.values():
                 if o.status == "discharged":
